@@ -26,6 +26,8 @@ type faultCase struct {
 	Fault string `json:"fault"`
 	Debug bool   `json:"debug"`
 	Len   int    `json:"len,omitempty"`
+	// Timeout: "" 120 ms; "0", "1ns", "7ns", "-1s" degenerate timeouts a client can be built with
+	Timeout string `json:"timeout,omitempty"`
 }
 
 func checkFault(c faultCase) *rp.Fail {
@@ -57,6 +59,16 @@ func checkFault(c faultCase) *rp.Fail {
 	ip := [4]byte{127, 0, 5, 1}
 	const T = 120
 	cfg := hook.ClientCfg{TimeoutMs: T, BindIP: [4]byte{127, 0, 0, 1}, Debug: c.Debug, HasBroadcast: true, BroadcastIP: [4]byte{127, 0, 5, 2}, BroadcastPort: 1}
+	switch c.Timeout {
+	case "0":
+		cfg.ZeroTimeout = true
+	case "1ns":
+		cfg.TimeoutNs = 1
+	case "7ns":
+		cfg.TimeoutNs = 7
+	case "-1s":
+		cfg.TimeoutNs = -1000000000
+	}
 	var port uint16
 	switch c.Path {
 	case 0, 1:
@@ -169,6 +181,9 @@ func genFault(t *rapid.T) faultCase {
 	}
 	if c.Fault == "silence" && rapid.IntRange(0, 3).Draw(t, "silence.rare") != 0 {
 		c.Fault = "empty"
+	}
+	if rapid.IntRange(0, 5).Draw(t, "degenerate.timeout") == 0 {
+		c.Timeout = rapid.SampledFrom([]string{"0", "1ns", "7ns", "-1s"}).Draw(t, "timeout")
 	}
 	return c
 }
